@@ -762,9 +762,167 @@ static std::string xalloc(const Case& cs, Cur& cu)
   return obs(show(c), show(d), show(f) + "|" + ids);
 }
 
+// ---------------------------------------------------------------- xasgm / xasgv (round 6): assignment / conversion INTO AN EXISTING OBJECT
+// The target holds OTHER NON-ZERO entries (and, for the dynamic classes, ANOTHER SHAPE: p = 100*rows + cols, resp. p = size) before it is
+// assigned.  R=<target after> A=<source after> B=<shape of the target after>.  Sources: every representation incl. scalars, views,
+// DiagonalMatrix, and (fields D, C) the representations over the other field type S (XF, XD, XG, XV, XW).
+template<class M> static std::string showG(const DenseMatrix<M>& m)
+{
+  std::string s;
+  for (std::size_t i = 0; i < m.N(); ++i) { if (i) s += ";"; for (std::size_t j = 0; j < m.M(); ++j) { if (j) s += ","; s += showK(K(m[i][j])); } }
+  return s;
+}
+template<class F, int n> static std::string showG(const DiagonalMatrix<F, n>& d)
+{
+  std::string s; for (int i = 0; i < n; ++i) { if (i) s += ","; s += showK(K(d.diagonal(i))); } return s;
+}
+template<class V> static std::string showG(const DenseVector<V>& v)
+{
+  std::string s; for (std::size_t i = 0; i < v.size(); ++i) { if (i) s += ","; s += showK(K(v[i])); } return s;
+}
+static std::string showG(const K& k) { return showK(k); }
+template<class M> static std::string dimsOf(const M& m) { return std::to_string(m.N()) + "x" + std::to_string(m.N() ? m.M() : 0); }   // M() of a matrix without rows is not defined
+template<class T, class Sx> static std::string asgMat(const T& t0, const Sx& s)
+{
+  std::vector<std::string> r;
+  T a(t0); T* pa = &(a = s); r.push_back(showG(a));                                    // assignment / conversion into the dirty target
+  if (pa != &a) r.push_back("operator= does not return *this");
+  if constexpr (std::is_same_v<T, Sx>) { T b(t0); Sx s2(s); b = std::move(s2); r.push_back(showG(b)); }      // move assignment
+  else if constexpr (!IsNumber<Sx>::value && std::is_constructible_v<T, const Sx&>) { T b(t0); const T tmp(s); b = tmp; r.push_back(showG(b)); }
+  { T b(t0); b = s; b = s; r.push_back(showG(b)); }                                    // assigning twice changes nothing
+  return obs(same(r), showG(s), dimsOf(a));
+}
+template<class T, class Sx> static std::string asgVec(const T& t0, const Sx& s)
+{
+  std::vector<std::string> r;
+  T a(t0); T* pa = &(a = s); r.push_back(showG(a));
+  if (pa != &a) r.push_back("operator= does not return *this");
+  if constexpr (std::is_same_v<T, Sx>) { T b(t0); Sx s2(s); b = std::move(s2); r.push_back(showG(b)); }
+  else if constexpr (!IsNumber<Sx>::value && std::is_constructible_v<T, const Sx&>) { T b(t0); const T tmp(s); b = tmp; r.push_back(showG(b)); }
+  { T b(t0); b = s; b = s; r.push_back(showG(b)); }
+  return obs(same(r), showG(s), std::to_string(a.size()));
+}
+// sources for a target of static shape R x c (FM) or any shape (DM)
+template<int c, class T> static std::string asgMatSources(const Case& cs, const T& t0, const K& k, Cur& cu)
+{
+  const std::string& s = cs.rep2;
+  if (s == "K") return asgMat(t0, k);
+  if (s == "FM") { FM<R, c> S; loadM(S, R, c, cu); return asgMat(t0, S); }
+  if (s == "DM") { DM S(R, c); loadM(S, R, c, cu); return asgMat(t0, S); }
+  if (s == "TF") { FM<c, R> W; loadM(W, c, R, cu); return asgMat(t0, transposedView(W).asDense()); }      // the FieldMatrix made by asDense()
+  if (s == "TD") { DM W(c, R); loadM(W, c, R, cu); return asgMat(t0, transposedView(W).asDense()); }      // the DynamicMatrix made by asDense()
+  if constexpr (R == c) {
+    if (s == "DG") { DG<R> S; loadD(S, cu); return asgMat(t0, S); }
+#if C01_HAS_SRC
+    if (s == "XG") { DiagonalMatrix<S, R> Sx; for (int i = 0; i < R; ++i) Sx.diagonal(i) = toS(cu.next()); return asgMat(t0, Sx); }
+#endif
+  }
+  if constexpr (R == 1 && c == 1) {
+    if (s == "SV") { K v = cu.next(); auto S = Impl::asMatrix(v); return asgMat(t0, S); }
+    if (s == "SC") { const K v = cu.next(); auto S = Impl::asMatrix(v); return asgMat(t0, S); }
+  }
+#if C01_HAS_SRC
+  if (s == "XF") { FMS<R, c> Sx; loadMS(Sx, R, c, cu); return asgMat(t0, Sx); }
+  if (s == "XD") { DynamicMatrix<S> Sx(R, c); loadMS(Sx, R, c, cu); return asgMat(t0, Sx); }
+#endif
+  throw std::runtime_error("xasgm source");
+}
+static std::string xasgm(const Case& cs, Cur& cu)
+{
+  K k = cu.next();
+  std::string out;
+  const std::string& d = cs.rep; const std::string& s = cs.rep2;
+  if (d == "DM") {
+    const int r0 = cs.p / 100, c0 = cs.p % 100;
+    DM t0(r0, c0); loadM(t0, r0, c0, cu);
+    if (s == "K") return asgMat(t0, k);                                              // scalar: no resize, fills the shape the matrix has
+    if (s == "DM" || s == "TD") {
+      if (s == "TD") { DM W(cs.c, cs.r); loadM(W, cs.c, cs.r, cu); return asgMat(t0, transposedView(W).asDense()); }
+      DM S(cs.r, cs.c); loadM(S, cs.r, cs.c, cu); return asgMat(t0, S);
+    }
+#if C01_HAS_SRC
+    if (s == "XD") { DynamicMatrix<S> Sx(cs.r, cs.c); loadMS(Sx, cs.r, cs.c, cu); return asgMat(t0, Sx); }
+#endif
+    if (cs.r != R) throw std::runtime_error("wrong TU");
+    withDim(cs.c, [&](auto C) { constexpr int c = decltype(C)::value; out = asgMatSources<c>(cs, t0, k, cu); });
+    return out;
+  }
+  if (cs.r != R) throw std::runtime_error("wrong TU");
+  if (d == "FM") {
+    withDim(cs.c, [&](auto C) { constexpr int c = decltype(C)::value; FM<R, c> t0; loadM(t0, R, c, cu); out = asgMatSources<c>(cs, t0, k, cu); });
+    return out;
+  }
+  if (d == "DG") {
+    DG<R> t0; loadD(t0, cu);
+    if (s == "K") { DG<R> a(t0); a = k; DG<R> b(t0); b = k; b = k; return obs(same({show(a), show(b)}), show(k), dimsOf(a)); }
+    DG<R> S; loadD(S, cu); DG<R> a(t0); a = S; DG<R> b(t0); DG<R> S2(S); b = std::move(S2);
+    return obs(same({show(a), show(b)}), show(S), dimsOf(a));
+  }
+  if constexpr (R == 1) {
+    if (d == "SV") {
+      K t = cu.next(); auto a = Impl::asMatrix(t);
+      if (s == "K") { a = k; return obs(show(t), show(k), dimsOf(a)); }
+      K v = cu.next();
+      if (s == "SV") { auto b = Impl::asMatrix(v); a = b; }
+      else if (s == "SC") { const K cv = v; auto b = Impl::asMatrix(cv); a = b; }
+      else if (s == "FM") { FM<1, 1> b; b[0][0] = v; a = b; v = b[0][0]; }
+      else throw std::runtime_error("xasgm view source");
+      return obs(show(t), show(v), dimsOf(a));
+    }
+  }
+  throw std::runtime_error("xasgm target");
+}
+static std::string xasgv(const Case& cs, Cur& cu)
+{
+  K k = cu.next();
+  const std::string& d = cs.rep; const std::string& s = cs.rep2;
+  const int n = cs.r;
+  if (d == "DV") {
+    const int n0 = cs.p;
+    DV t0(n0); loadV(t0, n0, cu);
+    if (s == "K") return asgVec(t0, k);
+    if (s == "DV") { DV S(n); loadV(S, n, cu); return asgVec(t0, S); }
+#if C01_HAS_SRC
+    if (s == "XW") { DynamicVector<S> Sx(n); loadVS(Sx, n, cu); return asgVec(t0, Sx); }
+#endif
+    if (n != R) throw std::runtime_error("wrong TU");
+    if (s == "FV") { FV<R> S; loadV(S, R, cu); return asgVec(t0, S); }
+    if constexpr (R == 1) { if (s == "SW") { K v = cu.next(); auto S = Impl::asVector(v); return asgVec(t0, S); } }
+    throw std::runtime_error("xasgv source");
+  }
+  if (n != R) throw std::runtime_error("wrong TU");
+  if (d == "FV") {
+    FV<R> t0; loadV(t0, R, cu);
+    if (s == "K") return asgVec(t0, k);
+    if (s == "FV") { FV<R> S; loadV(S, R, cu); return asgVec(t0, S); }
+    if (s == "DV") { DV S(R); loadV(S, R, cu); return asgVec(t0, S); }
+#if C01_HAS_SRC
+    if (s == "XV") { FVS<R> Sx; loadVS(Sx, R, cu); return asgVec(t0, Sx); }
+    if (s == "XW") { DynamicVector<S> Sx(R); loadVS(Sx, R, cu); return asgVec(t0, Sx); }
+#endif
+    if constexpr (R == 1) { if (s == "SW") { K v = cu.next(); auto S = Impl::asVector(v); return asgVec(t0, S); } }
+    throw std::runtime_error("xasgv source");
+  }
+  if constexpr (R == 1) {
+    if (d == "SW") {
+      K t = cu.next(); auto a = Impl::asVector(t);
+      if (s == "K") { a = k; return obs(show(t), show(k), "1"); }
+      K v = cu.next();
+      if (s == "SW") { auto b = Impl::asVector(v); a = b; }
+      else if (s == "SC") { const K cv = v; auto b = Impl::asVector(cv); a = b; }
+      else if (s == "FV") { FV<1> b(v); a = b; v = b[0]; }
+      else throw std::runtime_error("xasgv view source");
+      return obs(show(t), show(v), "1");
+    }
+  }
+  throw std::runtime_error("xasgv target");
+}
+
 static std::string runExtra(const Case& cs, Cur& cu)
 {
   const std::string& op = cs.op;
+  if (op == "xasgm") return xasgm(cs, cu);
+  if (op == "xasgv") return xasgv(cs, cu);
   if (op == "xvelem" || op == "xmelem" || op == "xdelem" || op == "xkelemN" || op == "xkelemT") return xelem(cs, cu);
   if (op == "xmself") return xmself(cs, cu);
   if (op == "xhist") return xhist(cs, cu);
